@@ -233,9 +233,15 @@ func TestC14(t *testing.T) {
 				}
 				desc := fmt.Sprintf("[%s as=%d hold=%d id=%08x caps=%v]", p.Dir, as, hold, id, caps)
 				if !exp.Representable {
-					// nothing, or something well-formed (the wire monitor judges well-formedness)
+					// nothing at all (the wire monitor judges well-formedness), or an OPEN that
+					// still carries exactly the capabilities, never one that leaves some out
 					if len(ms) == 0 && !eof {
 						w.Violate("%s unrepresentable capabilities: connection neither used nor closed", desc)
+					}
+					if len(ms) > 0 && ms[0].Type == wire.TypeOpen {
+						if why := exp.CheckOpen(ms[0].Open); why != "" {
+							w.Violate("%s the capabilities cannot be represented, and the OPEN that was sent anyway differs from them: %s", desc, why)
+						}
 					}
 					return
 				}
